@@ -371,6 +371,17 @@ def run(ctx: Context) -> None:
     r2(ctx, sites)
     r3(ctx, sites)
     r4(ctx, sites)
+    # R5: a broker operation that could not run its statement says so (shared with C16/R11, over the brokers and the
+    # connection wrapper every SQLite statement goes through)
+    from . import c16
+
+    ctx.rule("R5", "shared: no broker method and no method of the SQLite connection wrapper swallows a storage error; the wrapper's bounded retry ends in the statement's own result or in an error (C16/R11) - a routing whose INSERT never ran must not return normally, a retrieval whose lock / DELETE never ran must not hand out the message")
+    sub = Context("C16", ctx.repo, ctx.tier, ctx.seed)
+    sub._resolver = ctx._resolver
+    c16.r11(sub, lambda c: "Broker" in c.name or c.name == "SQLiteConnection")
+    for i in sub.instances:
+        ctx.add("R5", i.key.split("/", 2)[2], i.ok, i.where, i.detail)
+    ctx.floor("R5", "broker / connection methods", ctx.count("R5"), 12)
     ctx.exhaustive = True
     ctx.not_decided += [
         "the arithmetic 'length = routed - retrieved' over operation histories (follows from R1/R2, not itself computed)",
